@@ -225,6 +225,7 @@ package websocket
 //@   havoc
 //@   requires pbody != nil ==> liveP[pbody]
 //@   ensures ReaderKeeps(c)
+//@   ensures gFwd == old(gFwd)
 //@   ensures forall q int :: q != pbody && old(liveP[q]) ==> liveP[q]
 //@ func (*Conn).handleDataFrame
 //@   trusted
@@ -233,11 +234,15 @@ package websocket
 //@   ensures ReaderKeeps(c)
 //@   ensures forall q int :: q != pbody && old(liveP[q]) ==> liveP[q]
 //@ func (*Conn).handleProtocolMessage
-//@   trusted
-//@   havoc
+//@   props C05 C14 C13
+//@   note control messages take the same serialized route as data messages (C05, C14): this function only forwards to handleMessage, which dispatches through the connection's executor; it calls no handler itself
 //@   requires pbody != nil ==> liveP[pbody]
 //@   ensures ReaderKeeps(c)
 //@   ensures forall q int :: q != pbody && old(liveP[q]) ==> liveP[q]
+//@   ensures forwarded: gFwd == old(gFwd) + 1   // prop C05 C14
+//@   assigns everything
+//@   at before:handleMessage#1 assert same: arg_opcode == opcode && arg_pbody == pbody   // prop C05 C13
+//@   at call:handleMessage#1 ghost { gFwd = gFwd + 1 }
 //@ func (*Conn).WriteClose
 //@   trusted
 //@   havoc
@@ -459,6 +464,8 @@ package websocket
 //@   assigns allocates
 // read-deadline renewals made by the message handler
 //@ ghost gRenew : Int
+// control messages forwarded to the common dispatch
+//@ ghost gFwd : Int
 //@ func (*Conn).handleWsMessage$1
 //@   inline
 //@   note keep-alive (C16): every handled message renews the read deadline to now + KeepaliveTime (the literal is deferred only when KeepaliveTime > 0)
@@ -489,3 +496,23 @@ package websocket
 //@   at call:WriteMessage#2 ghost { gErrFrames = gErrFrames + 1 }
 //@   at call:WriteMessage#3 ghost { gErrFrames = gErrFrames + 1 }
 //@ pred ValidCode(code int) := (1000 <= code && code <= 1003) || (1007 <= code && code <= 1011) || (3000 <= code && code <= 4999)
+
+// ---- the default control-message handlers installed by NewUpgrader (C13): a ping is answered by a pong carrying the
+// same payload; a close frame is answered by a close frame carrying the received code (big-endian) and reason, or an
+// empty one when none was received; the reply buffer is given back once
+//@ func NewUpgrader$1
+//@   props C13
+//@   safety index slice nil
+//@   requires thread: c != nil && WsWired(c) && !holds(c.mux) && c.Engine.MaxWebsocketFramePayloadSize > 0 && c.Conn != nil && !c.gQTok
+//@   assigns everything
+//@   at before:WriteMessage#1 assert pong: arg_messageType == PongMessage && len(arg_data) == len(data) && (forall j int :: 0 <= j && j < len(data) ==> arg_data[j] == data[j])   // prop C13
+//@ func NewUpgrader$3
+//@   props C13 C11
+//@   safety index slice
+//@   requires thread: c != nil && WsWired(c) && !holds(c.mux) && c.Engine.MaxWebsocketFramePayloadSize > 0 && c.Conn != nil && !c.gQTok && u != nil && u.Engine != nil && u.Engine.BodyAllocator != nil && 0 <= code && code <= 65535
+//@   assigns everything
+//@   at before:WriteMessage#1 assert emptyclose: code == 1005 && arg_messageType == CloseMessage && len(arg_data) == 0   // prop C13
+//@   note WriteMessage frees only buffers of its own (its compression buffer and the frame buffers it allocates) and does not touch the Upgrader: assumed here, its contract does not state a frame
+//@   at call:WriteMessage#2 assume frame: liveP[pbuf]
+//@   at before:WriteMessage#2 assert reply: code != 1005 && arg_messageType == CloseMessage && len(arg_data) == len(text) + 2 && arg_data[0] == code / 256 && arg_data[1] == code % 256 && (forall j int :: 0 <= j && j < len(text) ==> arg_data[2 + j] == text[j])   // prop C13
+
